@@ -27,6 +27,8 @@ pub struct PropPlan {
     pub rule: &'static str,
     pub assumptions: &'static [&'static str],
     pub real_vs_stub: &'static str,
+    /// counters that a run of this check is expected to move; one stuck at zero is a reach gap
+    pub probes: &'static [&'static str],
 }
 
 pub static PLANS: &[PropPlan] = &[PropPlan {
@@ -41,6 +43,7 @@ pub static PLANS: &[PropPlan] = &[PropPlan {
         "bytes still inside an io::BufWriter when to_writer returns are flushed by the harness; a fault hit only by that flush is outside the call",
     ],
     real_vs_stub: "real: sonic-rs serializer, formatters, SIMD escaper, WriteExt impls for Vec/BytesMut/BufferedWriter/io::BufWriter/&mut/Box, Value/LazyValue/OwnedLazyValue/RawNumber Serialize impls; simulated: the sink (FaultySink), a user WriteExt whose reserved window ends at a PROT_NONE page, source strings ending 0..40 bytes before a PROT_NONE page, heap ledger; absent: clock, network",
+    probes: &["fault_short_write", "fault_eintr", "fault_permanent_error", "fault_ok0", "fault_reserve_error", "fault_flush_len_error", "fault_never_reached", "fault_free_runs", "faulted_runs", "guard_window_reserves", "guarded_str_used", "guarded_str_near_page_end", "ser_err_expected", "ser_ok", "pretty_runs", "compact_runs", "stack_vec_mut", "stack_box_vec", "stack_bytesmut", "stack_bytesmut_mut", "stack_buffered", "stack_iobuf_vec", "stack_iobuf_buffered", "stack_guard_window", "stack_to_string"],
 }, PropPlan {
     prop: "C13",
     level: "exploration",
@@ -52,6 +55,7 @@ pub static PLANS: &[PropPlan] = &[PropPlan {
         "as_raw_number on a number may be Some(literal) or None (the DOM only keeps raw numbers on request); on anything else it must be None",
     ],
     real_vs_stub: "real: sonic-rs parser skip/get paths, LazyValue, OwnedLazyValue, LazyArray/LazyObject, serializer raw-emission path, serde glue; simulated: heap bookkeeping only (single simulated caller); absent: threads (C18 covers them), clock, network, disk",
+    probes: &["lazy_handles", "lazy_steps", "lazy_mutations", "lazy_clones", "lazy_conversions", "lazy_route_get", "lazy_route_iter", "lazy_route_serde", "lazy_route_owned_serde", "lazy_route_from_lazy", "lazy_route_to_lazyvalue", "lazy_route_get_many", "lazy_reserialize"],
 }, PropPlan {
     prop: "C15",
     level: "exploration",
@@ -63,6 +67,7 @@ pub static PLANS: &[PropPlan] = &[PropPlan {
         "array::IntoIter::{as_slice, as_mut_slice} are left out: undocumented and visibly not vec::IntoIter semantics, so there is no stated reference",
     ],
     real_vs_stub: "real: sonic-rs DOM (node.rs, array.rs, object.rs, index.rs, from.rs, partial_eq.rs, macros), parser, serializer; simulated: heap bookkeeping only (single simulated caller; threads are C16's business); absent: clock, network, disk",
+    probes: &["dom_steps", "dom_mutations", "dom_rejected_ops", "dom_panics_expected", "dom_clones", "dom_takes", "dom_pool_compares", "dom_parsed_roots", "dom_built_values", "dom_cross_assign"],
 }, PropPlan {
     prop: "C16",
     level: "exploration",
@@ -74,6 +79,7 @@ pub static PLANS: &[PropPlan] = &[PropPlan {
         "documents are small (<= 20 nodes) except the rare 400 KB document that drives the node buffer's heap fallback",
     ],
     real_vs_stub: "real: sonic-rs parser, DOM, arena ref-counting, thread-local node buffer, serde glue, std Arc, bumpalo; simulated: thread scheduling (baton over real OS threads), mailboxes between threads, heap bookkeeping; absent: clock, network, disk",
+    probes: &["context_switches", "arena_created", "arena_dropped", "arena_freed_on_foreign_thread", "tls_buffer_reused", "tls_heap_fallback", "value_sent_to_thread", "value_dropped_foreign", "to_mut_promotion", "cross_arena_insert", "stream_values", "deser_dropped_before_values", "dom_rejected_ops", "dom_takes", "dom_clones"],
 }, PropPlan {
     prop: "C18",
     level: "exploration",
@@ -85,6 +91,7 @@ pub static PLANS: &[PropPlan] = &[PropPlan {
         "documents are well-formed and small (<= 40 byte strings, <= 10 nodes)",
     ],
     real_vs_stub: "real: all of sonic-rs (parser, lazy values, serializer), sonic-number, sonic-simd, std Arc/String; simulated: thread scheduling (baton over real OS threads), outcome of compare_exchange_weak (shim, cfg sonic_rs_verif), heap bookkeeping (ledger over System allocator); absent: clock, network, disk (the library has none)",
+    probes: &["context_switches", "fault_spurious_cas", "cas_lost_real_race", "cas_won", "load_hit_published", "lazy_clones", "lazy_cache_scen", "owned_cache_scen"],
 }];
 
 fn arg(args: &[String], name: &str) -> Option<String> {
@@ -441,7 +448,7 @@ pub fn main(args: &[String]) -> i32 {
         });
         match kf {
             Some(k) => reported.push(Reported { line: format!("KNOWN-FINDING: property={} {} [{}] replay={}", prop, k.what, k.id, path), is_violation: false }),
-            None => reported.push(Reported { line: format!("VIOLATION property={} replay={}\n  class={} sim={} config={} run={} choices={} (from {})\n  {}", prop, path, class, g.sim, g.config, fv.run, rf.choices.len(), original_len, rf.violation.detail), is_violation: true }),
+            None => reported.push(Reported { line: format!("VIOLATION property={} replay={}\n  class={} sim={} config={} run={} choices={} ({} non-zero; from {})\n  {}", prop, path, class, g.sim, g.config, fv.run, rf.choices.len(), rf.choices.iter().filter(|c| **c != 0).count(), original_len, rf.violation.detail), is_violation: true }),
         }
     }
 
@@ -511,7 +518,7 @@ pub fn main(args: &[String]) -> i32 {
     // ---- evidence
     let wall = t0.elapsed().as_secs_f64();
     let fault_kinds: BTreeMap<String, u64> = counters.iter().filter(|(k, _)| k.starts_with("fault_")).map(|(k, v)| (k.clone(), *v)).collect();
-    let zero_probes: Vec<String> = Vec::new();
+    let zero_probes: Vec<String> = plan.probes.iter().filter(|p| counters.get(**p).copied().unwrap_or(0) == 0).map(|p| p.to_string()).collect();
     let n_viol = reported.iter().filter(|r| r.is_violation).count();
     let evidence = json!({
         "property_id": prop,
@@ -537,6 +544,7 @@ pub fn main(args: &[String]) -> i32 {
             "fault_kinds_fired": fault_kinds,
             "counters_and_reach_probes": counters.iter().filter(|(_, v)| **v > 0).map(|(k, v)| (k.clone(), *v)).collect::<BTreeMap<_, _>>(),
             "reach_gaps": zero_probes,
+            "reach_gap_notes": if prop == "C18" { "fault_spurious_cas can only fire at a compare_exchange_weak; since fix 8403169 the library has none left, so on the repaired tree this probe is 0 by construction (the fault point is still offered: mutants C18-F2 and seeded change C18d re-introduce a weak CAS and it fires there)" } else { "" },
             "per_sim_config": per_group,
             "real_vs_stub": plan.real_vs_stub,
             "worker_cpu_s": worker_wall,
